@@ -69,6 +69,26 @@ mod proofs {
         }
     }
 
+    /// P12 the two contracts the Verus layer ASSUMES on std (`assume_specification` in
+    /// verus/contracts/core.vspec), discharged here against the real std functions for all 2^64
+    /// inputs (loop-free, complete): `u64::next_power_of_two` and `u64::is_power_of_two`.
+    #[kani::proof]
+    fn p12_std_pow2_specs() {
+        let x: u64 = kani::any();
+        // assume_specification[<u64>::is_power_of_two]: ensures r == pow2(x)
+        assert!(x.is_power_of_two() == pow2(x));
+        // assume_specification[<u64>::next_power_of_two]:
+        //   requires 0 < x <= 2^62, ensures pow2(r), r >= x, r < 2 * x
+        if 0 < x && x <= 0x4000_0000_0000_0000u64 {
+            let r = x.next_power_of_two();
+            assert!(pow2(r));
+            assert!(r >= x);
+            assert!((r as u128) < 2 * (x as u128));
+            kani::cover!(r == 0x4000_0000_0000_0000u64);
+            kani::cover!(r == 1);
+        }
+    }
+
     /// P5 constructors: mask = wrap - 1, start value as given; no panic for valid wraps
     #[kani::proof]
     fn p5_constructors() {
